@@ -20,8 +20,8 @@ INT = [0, 1, 2, 127, 128, 255, 256, 32767, 32768, 65535, 65536, 2**24 - 1, 2**24
 STR = ["", "a", "dc=x", "é", "☺", "\U0001F600", "\x00", "a" * 127, "a" * 128, "a" * 255, "a" * 256,
        # content a normalising / canonicalising decoder would alter: percent-escapes, case, surrounding and inner
        # whitespace, control characters, a backslash escape, a NUL in the middle, a BOM, a combining sequence
-       "ldap://h/ou=Sales%20Team??sub?(cn=100%25)", "%41%zz%", "MiXeD CaSe", "  lead and trail  ", "\t\r\n", "a\\2ab\\\\", "a\x00b", "\ufeffx", "e\u0301"]
-BYTES = [b"", b"\x00", b"a", b"\xff", b"\x80\x00", bytes(range(256)), b"x" * 127, b"x" * 128, b"x" * 255, b"x" * 256]
+       "z" * 300, "\u00e9" * 200, "ldap://h/ou=Sales%20Team??sub?(cn=100%25)", "%41%zz%", "MiXeD CaSe", "  lead and trail  ", "\t\r\n", "a\\2ab\\\\", "a\x00b", "\ufeffx", "e\u0301"]
+BYTES = [b"", b"\x00", b"a", b"\xff", b"\x80\x00", bytes(range(256)), b"x" * 127, b"x" * 128, b"x" * 255, b"x" * 256, b"\x00" * 300, b"*" * 40]
 STR_BIG = ["a" * 65535, "a" * 65536]
 BYTES_BIG = [b"x" * 65535, b"x" * 65536]
 BOOL = [False, True]
@@ -43,6 +43,9 @@ def LIST(d: t.List[t.Any]) -> t.List[t.Any]:
         out.append([d[0], d[1]])
         out.append([d[1], d[0], d[0]])
         out += [[x] for x in d[1:]]
+        # beyond "a few": every domain value in one list, and a long run of repeats
+        out.append(list(d))
+        out.append([d[1]] * 25 + [d[0]] * 2)
     return out
 
 
@@ -64,7 +67,10 @@ def controls_domain(big: bool = False) -> t.Tuple[t.List[t.Any], t.List[t.Any]]:
             C.append(L.PagedResultControl(crit, n, b""))
         for ck in BYTES[1:]:
             C.append(L.PagedResultControl(crit, 0, ck))
-    dom = LIST(C) + [[C[0], L.ShowDeletedControl(True), L.PagedResultControl(False, 1000, b"ck")]]
+    dom = LIST(C)[:-2] + [[C[0], L.ShowDeletedControl(True), L.PagedResultControl(False, 1000, b"ck")]]
+    # many controls on one message: 20 mixed ones, and the same control 20 times
+    many = [C[i * 7 % len(C)] for i in range(20)]
+    dom += [many, [L.PagedResultControl(True, 7, b"c")] * 20]
     x = [C[0], C[1], L.LDAPControl("1.2", True, b"\xff" * 128), L.ShowDeletedControl(True), L.ShowDeactivatedLinkControl(False),
          L.PagedResultControl(True, 128, b"c"), L.PagedResultControl(False, -129, bytes(range(256)))]  # fmt: skip
     xdom = [[]] + [[c] for c in x] + [[x[0], x[5]], [x[3], x[2], x[2]]]
@@ -123,7 +129,13 @@ def filter_domain(depth3: bool = False) -> t.Tuple[t.List[t.Any], t.List[t.Any]]
     for cls in (L.FilterAnd, L.FilterOr):
         for x, y in itertools.product(t1[:10] + R[:2], repeat=2):
             d2.append(cls([x, y]))
-    dom = [R[0]] + full + d1 + d2
+    # beyond depth 2-3: a chain nested 12 deep, composites with 25 children, a 10-deep and/or ladder
+    chain = R[1]
+    for i in range(12):
+        chain = L.FilterNot(chain) if i % 3 == 0 else L.FilterAnd([chain]) if i % 3 == 1 else L.FilterOr([chain, R[0]])
+    wide = [L.FilterAnd([L.FilterEquality("cn", b"v%d" % i) for i in range(25)]), L.FilterOr([R[2]] * 25),
+            L.FilterSubstrings("cn", b"i", [b"a%d" % i for i in range(30)], b"f")]
+    dom = [R[0]] + full + d1 + d2 + [chain] + wide
     if depth3:
         t2 = _compose(t1[:8])
         dom += _compose(t2) + [cls([x, y]) for cls in (L.FilterAnd, L.FilterOr) for x in t2[:12] for y in (R[0], t1[0])]
